@@ -375,9 +375,8 @@ def c_name(n):
 
 
 def c_msg(case, cid, k):
-    cat = cat_of(case, cid)
-    vals = [msg_value(cid, k, i) if has_field(cat, m) else 0 for i, m in enumerate(metric_names())]
-    return f"(mkMsg {cZ(msg_ts_us(case, cid, k))} {clist(vals)})"
+    # `mk ts base` (defined in the case-file header) = message whose field i holds base + i
+    return f"(mk {cZ(msg_ts_us(case, cid, k))} {cZ(msg_value(cid, k, 0))})"
 
 
 def c_out(cid, n, ts, v):
@@ -389,6 +388,7 @@ def to_events(case, obs):
     tab = key_table(case, obs)
     log = obs["log"]
     ev = []
+    pending = {}     # component -> a handler task has entered _handle_data_stream but not yet snapshotted
     i = 0
     while i < len(log):
         e = log[i]
@@ -399,22 +399,28 @@ def to_events(case, obs):
             ev.append((f"AddMetric {cZ(e[1])} {c_name(n)}", "ONone"))
             i += 1
         elif e[0] == "hstart":
-            cid = e[1]
-            created, names, crashed = False, [], False
+            # the task entered _handle_data_stream; the model's HandlerStart is the step that validates,
+            # creates the receiver and looks the channels up (recv/goc burst) or raises (hcrash)
+            pending[e[1]] = True   # (an earlier pending one was cancelled by a newer request)
             i += 1
+        elif e[0] in ("recv", "goc", "hcrash"):
+            cid = e[1] if e[0] != "goc" else (tab[e[1]][0] if e[1] in tab else None)
+            if cid is None or not pending.get(cid):
+                return None
+            pending[cid] = False
+            created, names, crashed = False, [], False
             while i < len(log) and log[i][0] in ("recv", "goc", "hcrash"):
                 x = log[i]
+                xc = x[1] if x[0] != "goc" else (tab[x[1]][0] if x[1] in tab else None)
+                if xc != cid:
+                    break                      # another component's handler: its own event
                 if x[0] == "recv":
-                    if x[1] != cid:
+                    if names:
                         return None
                     created = True
                 elif x[0] == "goc":
-                    if x[1] not in tab or tab[x[1]][0] != cid:
-                        return None
                     names.append(tab[x[1]])
                 else:
-                    if x[1] != cid:
-                        return None
                     crashed = True
                     i += 1
                     break
@@ -446,15 +452,19 @@ def to_events(case, obs):
                 grp.append(c_out(n[0], n, x[2], x[3]))
                 i += 1
             ev.append(("Deliver", f"OSent [{'; '.join(grp)}]"))
-        else:  # recv / goc / hcrash outside a handler's first step
+        else:
             return None
     return ev
 
 
 CATC = {"METER": "Meter", "INVERTER": "Inverter", "BATTERY": "Battery", "EV_CHARGER": "EvCharger"}
 
+MK = """(* the harness' messages: the field read by metric i holds base + i *)
+Definition mk (ts base : Z) : msg := mkMsg ts (map (fun i => base + Z.of_nat i) (seq 0 28)).
+"""
+
 HEADER = """From Verif Require Import model.DataSourcing.
-(* case: components() answer, recorded trace with what was observed at each event, the component ids,
+""" + MK + """(* case: components() answer, recorded trace with what was observed at each event, the component ids,
    and per channel (component, name) the samples the harness read from the registry channel *)
 Definition check (c : list (comp * category) * list (event * observed) * list (comp * name * list sample)) : bool :=
   let '(cl, evs, streams) := c in
@@ -472,14 +482,14 @@ def case_term(case, obs):
     ev = to_events(case, obs)
     if ev is None or obs["errors"]:
         # the run left the model's alphabet: an event no state enables
-        return f"({cl}, [(Deliver, ONone)], [])"
+        return f"({cl}, [(Deliver, ONone)], @nil (comp * name * list sample))"
     evs = "[" + ";\n    ".join(f"({e}, {o})" for e, o in ev) + "]"
     tab = key_table(case, obs)
     st = []
     for key, got in sorted(obs["streams"].items()):
         n = tab[key]
         if any(not isinstance(v, int) for _, v in got):
-            return f"({cl}, [(Deliver, ONone)], [])"
+            return f"({cl}, [(Deliver, ONone)], @nil (comp * name * list sample))"
         st.append(f"({cZ(n[0])}, {c_name(n)}, [{'; '.join(f'({cZ(t)}, {cZ(v)})' for t, v in got)}])")
     return f"({cl}, {evs}, [{'; '.join(st)}])"
 
@@ -494,7 +504,7 @@ def show_term(case, obs):
 
 
 # ----------------------------------------------------------------------------- property oracle
-def oracle(case, obs, crash_finding=None):
+def oracle(case, obs):
     """C20 judged on what was sent into the fake API vs what came out of the registry channels."""
     out = []
     if obs["errors"]:
@@ -517,11 +527,11 @@ def oracle(case, obs, crash_finding=None):
     for p, e in enumerate(log):
         if e[0] == "add":
             add_pos.setdefault(e[2], p)
-    # components for which some request names a metric the category has no data for
-    poisoned = {}
+    # requests naming a metric the category has no data for (they must be ignored like unknown ids)
+    invalid = {}
     for a in case["actions"]:
         if a["t"] == "sub" and a["cid"] in cats and not supported(cats[a["cid"]], a["metric"]):
-            poisoned.setdefault(a["cid"], a["metric"])
+            invalid.setdefault(a["cid"], a["metric"])
     seen_desc = set()
     eff_adds = {c: 0 for c in cats}
     for a in case["actions"]:
@@ -542,6 +552,9 @@ def oracle(case, obs, crash_finding=None):
             out.append({"what": f"request: {d} was never processed", "finding": None})
             continue
         if not supported(cats[cid], a["metric"]):
+            eff_adds[cid] -= 1
+            if got:
+                out.append({"what": f"invalid: request {d} for a metric {cats[cid]} data does not provide produced samples", "finding": None})
             continue
         mi = metric_index(a["metric"])
         ks = []
@@ -574,15 +587,12 @@ def oracle(case, obs, crash_finding=None):
         if extra:
             out.append({"what": f"phantom: stream {d} received messages {extra} the API receiver never got", "finding": None})
         if missing:
-            fid = crash_finding if cid in poisoned else None
-            why = (f" (component also has a request for {poisoned[cid]}, which {cats[cid]} data does not provide)"
-                   if cid in poisoned else "")
+            why = (f" (the component also got a request for {invalid[cid]}, which {cats[cid]} data does not provide)"
+                   if cid in invalid else "")
             out.append({"what": f"loss: stream {d} did not receive messages {missing} of component {cid} that the API "
-                                f"receiver got while it was subscribed{why}", "finding": fid})
+                                f"receiver got while it was subscribed{why}", "finding": None})
     # a repeated identical request has no effect: the handler is (re)started at most once per new channel name
     for c in cats:
-        if c in poisoned:
-            continue
         starts = sum(1 for e in log if e[0] == "hstart" and e[1] == c)
         if starts > eff_adds[c]:
             out.append({"what": f"repeat: handler of component {c} started {starts} times for {eff_adds[c]} distinct requests", "finding": None})
@@ -614,6 +624,7 @@ def gen_case(rng, maxlen=12, unsupported=False):
     ncomp = rng.choice([1, 1, 2, 2, 3, 4])
     comps = rng.sample(POOL, ncomp)
     comps.sort()
+    nodata = [(30, rng.choice(OTHER_CATS))] if unsupported and rng.random() < 0.3 else []
     case = {"mode": "direct" if rng.random() < 0.6 else "actor", "comps": [list(c) for c in comps], "actions": []}
     if rng.random() < 0.25:
         case["suspend"] = {"components": rng.randint(1, 3)}
@@ -643,12 +654,14 @@ def gen_case(rng, maxlen=12, unsupported=False):
                  "start": rng.choice([None, None, None, 5]), "gap": gen_gap(rng)}
             subs.append(a)
         case["actions"].append(a)
-    if unsupported and comps:
-        cid, cat = rng.choice(comps)
+    if unsupported:
+        cid, cat = rng.choice(comps + nodata)
         bad = [m for m in metric_names() if not supported(cat, m)]
-        pos = rng.randint(0, len(case["actions"]))
-        case["actions"].insert(pos, {"t": "sub", "cid": cid, "metric": rng.choice(bad), "ns": "a", "start": None,
-                                     "gap": gen_gap(rng)})
+        for _ in range(rng.choice([1, 1, 2])):
+            pos = rng.randint(0, len(case["actions"]))
+            case["actions"].insert(pos, {"t": "sub", "cid": cid, "metric": rng.choice(bad), "ns": "a", "start": None,
+                                         "gap": gen_gap(rng)})
+        case["comps"] = [list(c) for c in sorted(comps + nodata)]
     if same:
         case["same_ts"] = same
     return case
@@ -671,6 +684,15 @@ def boundary_cases():
             out.append({"mode": mode, "comps": [[cid, cat]], "actions": [
                 M(0), S(first[cat]), S(first[cat]), S(second[cat]), M(0), M(0), S(first[cat], gap=1), M(1),
                 S(first[cat], start=5), M(0), {"t": "sub", "cid": 77, "metric": first[cat], "ns": "a", "start": None, "gap": 0}, M(0)]})
+    invalid = {"METER": "SOC", "INVERTER": "CAPACITY", "BATTERY": "ACTIVE_POWER", "EV_CHARGER": "ACTIVE_POWER_INCLUSION_LOWER_BOUND"}
+    for cid, cat in POOL[:4]:
+        for mode in ("direct", "actor"):
+            out.append({"mode": mode, "comps": [[cid, cat], [30, "GRID"]], "actions": [
+                {"t": "sub", "cid": cid, "metric": first[cat], "ns": "a", "start": None, "gap": 0},
+                {"t": "msg", "cid": cid, "gap": -1},
+                {"t": "sub", "cid": cid, "metric": invalid[cat], "ns": "a", "start": None, "gap": -1},
+                {"t": "sub", "cid": 30, "metric": "ACTIVE_POWER", "ns": "a", "start": None, "gap": 0},
+                {"t": "msg", "cid": cid, "gap": -1}, {"t": "msg", "cid": cid, "gap": -6}]})
     return out
 
 
@@ -739,6 +761,9 @@ def labels_of(case, obs):
         out.append("unknown_component")
     if case.get("same_ts"):
         out.append("repeated_timestamp")
+    catd = dict((c, k) for c, k in case["comps"])
+    if any(a["t"] == "sub" and a["cid"] in catd and not supported(catd[a["cid"]], a["metric"]) for a in case["actions"]):
+        out.append("invalid_metric_request")
     # hand-over shapes, read off the recorded trace
     inflight, buffered, pending_start = {}, {}, {}
     recv = set()
@@ -782,19 +807,19 @@ def labels_of(case, obs):
 class DSStream(Stream):
     name = "trace"
     coq_header = HEADER
-    n_quick = 1500
+    n_quick = 3000
     n_thorough = 30000
     scope_quick = 3
-    scope_thorough = 5
+    scope_thorough = 4
 
     def gen(self, rng, tier):
         yield from boundary_cases()
         yield from all_metrics_cases()
         quick = tier == "quick"
         yield from small_scope(self.scope_quick if quick else self.scope_thorough,
-                               gaps=(0, 1, -1) if quick else (0, 1, 2, -1))
+                               gaps=(0, 1, 2, -1))
         for _ in range(self.n_quick if quick else self.n_thorough):
-            yield gen_case(rng, 12 if rng.random() < 0.8 else 20)
+            yield gen_case(rng, 12 if rng.random() < 0.8 else 20, unsupported=rng.random() < 0.2)
 
     def run_impl(self, case):
         return run_case(case)
@@ -822,7 +847,7 @@ class DSStream(Stream):
 
 # ----------------------------------------------------------------------------- extraction tables
 TABLE_HEADER = """From Verif Require Import model.DataSourcing.
-(* (category, metric index, message, what the code's extractor returned: Some value | None = no extractor) *)
+""" + MK + """(* (category, metric index, message, what the code's extractor returned: Some value | None = no extractor) *)
 Definition check (c : category * Z * msg * option Z) : bool :=
   let '(cat, mt, m, r) := c in
   match r with
@@ -854,9 +879,8 @@ class TableStream(Stream):
         return {"value": int(v) if v == int(v) else repr(v)}
 
     def to_coq(self, case, obs):
-        vals = [msg_value(3, 7, i) if has_field(case["cat"], m) else 0 for i, m in enumerate(metric_names())]
         r = "None" if obs["value"] is None else f"(Some {cZ(obs['value'])})" if isinstance(obs["value"], int) else "(Some (-1))"
-        return f"({CATC[case['cat']]}, {metric_index(case['metric'])}, (mkMsg 5000000 {clist(vals)}), {r})"
+        return f"({CATC[case['cat']]}, {metric_index(case['metric'])}, (mk 5000000 {cZ(msg_value(3, 7, 0))}), {r})"
 
     def oracle(self, case, obs):
         # "that metric's value": the extractor must read the metric's own field
